@@ -80,59 +80,120 @@ theorem GoodBody.mono {sent sent' : List Bunch} {bits : Bits} (h : GoodBody sent
   exact ⟨bs, hb, fun b hb' => ⟨(hall b hb').1, (hall b hb').2.mono hs⟩⟩
 
 /-- a datagram of the data path carries a good body behind its two headers -/
-def EP (sent : List Bunch) (ev : Event) : Prop :=
-  ∀ d, ev = .out d → ∃ (e : Env) (s cl : Nat) (N body : Bits),
-    d = bitsToBytes (outgoingHeader e s cl false ++ N ++ body ++ [true, true]) ∧ GoodBody sent body
+def EP (mb mg : Nat) (sent : List Bunch) (ev : Event) : Prop :=
+  ∀ d, ev = .out d → ∃ (e : Env) (s cl : Nat) (hh : NotifHeader) (body : Bits), (e.magicBits = mb ∧ e.magic = mg) ∧ Props.C11.WFHeader hh ∧
+    d = bitsToBytes (outgoingHeader e s cl false ++ encodeNotifHeader hh ++ body ++ [true, true]) ∧ GoodBody sent body
 
-theorem eP_of_not_out (sent : List Bunch) (ev : Event) (h : ∀ d, ev ≠ .out d) : EP sent ev := fun d hd => absurd hd (h d)
+theorem eP_of_not_out (mb mg : Nat) (sent : List Bunch) (ev : Event) (h : ∀ d, ev ≠ .out d) : EP mb mg sent ev := fun d hd => absurd hd (h d)
 
-theorem EP.mono {sent sent' : List Bunch} {ev : Event} (h : EP sent ev) (hs : ∀ b ∈ sent, b ∈ sent') : EP sent' ev := by
+theorem EP.mono {mb mg : Nat} {sent sent' : List Bunch} {ev : Event} (h : EP mb mg sent ev) (hs : ∀ b ∈ sent, b ∈ sent') : EP mb mg sent' ev := by
   intro d hd
-  obtain ⟨e, s, cl, N, body, h1, h2⟩ := h d hd
-  exact ⟨e, s, cl, N, body, h1, h2.mono hs⟩
+  obtain ⟨e, s, cl, N, body, hm, h0, h1, h2⟩ := h d hd
+  exact ⟨e, s, cl, N, body, hm, h0, h1, h2.mono hs⟩
 
 abbrev GoodN (sent : List Bunch) : OutNode → Prop := fun n => GoodBody sent n.bits
+
+/-- what makes the packet header of the next datagram a well-formed header encoding -/
+structure HInv (c : Conn) : Prop where
+  hist : c.notify.hist.length = 256
+  seqs : (0 ≤ c.notify.outSeq ∧ c.notify.outSeq < 16384) ∧ (0 ≤ c.notify.inAckSeq ∧ c.notify.inAckSeq < 16384)
+  enc : c.sendActive = true → ∃ h, Props.C11.WFHeader h ∧ c.sendNotif = encodeNotifHeader h ∧ h.words = c.notify.writtenWords
+
+theorem HInv.same {c c' : Conn} (h : HInv c) (h1 : c'.notify = c.notify) (h2 : c'.sendActive = c.sendActive) (h3 : c'.sendNotif = c.sendNotif) : HInv c' :=
+  ⟨by rw [h1]; exact h.hist, by rw [h1]; exact h.seqs, fun ha => by rw [h3, h1]; exact h.enc (by rw [← h2]; exact ha)⟩
+
+theorem HInv.ofSameN {c c' : Conn} (h : HInv c) (hs : SameN c c') : HInv c' := h.same hs.notify hs.sendActive hs.sendNotif
+
+/-- other fields of the notify state may change -/
+theorem HInv.notify {c : Conn} (h : HInv c) (n : Notify) (h1 : n.hist = c.notify.hist) (h2 : n.writtenWords = c.notify.writtenWords)
+    (h3 : n.outSeq = c.notify.outSeq) (h4 : n.inAckSeq = c.notify.inAckSeq) : HInv { c with notify := n } :=
+  ⟨by show n.hist.length = 256; rw [h1]; exact h.hist,
+   by show (0 ≤ n.outSeq ∧ n.outSeq < 16384) ∧ (0 ≤ n.inAckSeq ∧ n.inAckSeq < 16384); rw [h3, h4]; exact h.seqs,
+   fun ha => by
+     obtain ⟨hh, w1, w2, w3⟩ := h.enc ha
+     exact ⟨hh, w1, w2, by show hh.words = n.writtenWords; rw [h2]; exact w3⟩⟩
+
+/-- the header that goes out with the packet is a well-formed header encoding -/
+theorem finalHeader_wf (c : Conn) (h : HInv c) (ha : c.sendActive = true) : ∃ hh, Props.C11.WFHeader hh ∧ c.finalHeader.2 = encodeNotifHeader hh := by
+  obtain ⟨h0, w1, w2, w3⟩ := h.enc ha
+  unfold Conn.finalHeader Notify.fillRefresh
+  split
+  · rename_i n hd heq
+    split at heq
+    · simp at heq
+    · simp at heq
+      obtain ⟨_, rfl⟩ := heq
+      refine ⟨_, ⟨h.seqs.1, h.seqs.2, by rw [← w3]; exact w1.words, ?_⟩, rfl⟩
+      have hw8 : c.notify.writtenWords ≤ 8 := by rw [← w3]; exact w1.words.2
+      exact Size.headerWith_hist_length _ _ h.hist hw8
+  · exact ⟨h0, w1, w2⟩
+
+theorem startPacket_hinv (c : Conn) (h : HInv c) : HInv c.startPacket := by
+  have hr := Size.curWords_range c.notify
+  refine ⟨h.hist, h.seqs, fun _ => ⟨c.notify.headerWith c.notify.curWords, ⟨h.seqs.1, h.seqs.2, hr, Size.headerWith_hist_length _ _ h.hist hr.2⟩, rfl, rfl⟩⟩
+
+theorem flushNow_hinv (e : Env) (c : Conn) (h : HInv c) : HInv (c.flushNow e) := by
+  obtain ⟨_, _, k3, _, k5⟩ := finalHeader_keeps c
+  have kout : c.finalHeader.1.outSeq = c.notify.outSeq := by
+    unfold Conn.finalHeader Notify.fillRefresh
+    split
+    · rename_i n hh heq
+      split at heq
+      · simp at heq
+      · simp at heq; obtain ⟨rfl, _⟩ := heq; rfl
+    · rfl
+  refine ⟨?_, ⟨?_, ?_⟩, fun hx => absurd hx (by simp [Conn.flushNow])⟩
+  · show c.finalHeader.1.commit.hist.length = 256
+    unfold Notify.commit; simp only; rw [k5]; exact h.hist
+  · show 0 ≤ seq_num_inc c.finalHeader.1.outSeq 1 ∧ seq_num_inc c.finalHeader.1.outSeq 1 < 16384
+    simp only [seq_num_inc, seq_num_init]; omega
+  · show 0 ≤ c.finalHeader.1.inAckSeq ∧ c.finalHeader.1.inAckSeq < 16384
+    rw [k3]; exact h.seqs.2
 
 structure EInv (sent : List Bunch) (c : Conn) : Prop where
   body : GoodBody sent c.sendBody
   recs : AllOKP (GoodN sent) c
+  hdr : HInv c
 
 theorem EInv.mono {sent sent' : List Bunch} {c : Conn} (h : EInv sent c) (hs : ∀ b ∈ sent, b ∈ sent') : EInv sent' c :=
-  ⟨h.body.mono hs, fun p hp n hn => (h.recs p hp n hn).mono hs⟩
+  ⟨h.body.mono hs, fun p hp n hn => (h.recs p hp n hn).mono hs, h.hdr⟩
 
-theorem EInv.of_fields {sent : List Bunch} {c c' : Conn} (h : EInv sent c) (h1 : c'.sendBody = c.sendBody) (h2 : AllOKP (GoodN sent) c') : EInv sent c' :=
-  ⟨by rw [h1]; exact h.body, h2⟩
+theorem EInv.of_fields {sent : List Bunch} {c c' : Conn} (h : EInv sent c) (h1 : c'.sendBody = c.sendBody) (h2 : AllOKP (GoodN sent) c') (h3 : HInv c') : EInv sent c' :=
+  ⟨by rw [h1]; exact h.body, h2, h3⟩
 
 /-! ### the sending machinery -/
 
 theorem startPacket_einv (sent : List Bunch) (c : Conn) (h : EInv sent c) : EInv sent c.startPacket :=
-  ⟨GoodBody.nil _, h.recs.of_chans rfl⟩
+  ⟨GoodBody.nil _, h.recs.of_chans rfl, startPacket_hinv c h.hdr⟩
 
-theorem flushNow_einv (sent : List Bunch) (e : Env) (c : Conn) (h : EInv sent c) : EInv sent (c.flushNow e) ∧ Adds (EP sent) c (c.flushNow e) := by
-  refine ⟨⟨GoodBody.nil _, h.recs.of_chans rfl⟩, [.out (bitsToBytes (c.packetBits e))], rfl, ?_⟩
+theorem flushNow_einv {mb mg : Nat} (sent : List Bunch) (e : Env) (he : e.magicBits = mb ∧ e.magic = mg) (c : Conn) (h : EInv sent c) (ha : c.sendActive = true) :
+    EInv sent (c.flushNow e) ∧ Adds (EP mb mg sent) c (c.flushNow e) := by
+  refine ⟨⟨GoodBody.nil _, h.recs.of_chans rfl, flushNow_hinv e c h.hdr⟩, [.out (bitsToBytes (c.packetBits e))], rfl, ?_⟩
   intro ev hev
   simp only [List.mem_singleton] at hev
   subst hev
   intro d hd
   cases hd
-  refine ⟨e, c.lastSessionId, c.lastClientId, c.finalHeader.2, c.sendBody, ?_, h.body⟩
-  unfold Conn.packetBits; simp
+  obtain ⟨hh, wf, hN⟩ := finalHeader_wf c h.hdr ha
+  refine ⟨e, c.lastSessionId, c.lastClientId, hh, c.sendBody, he, wf, ?_, h.body⟩
+  unfold Conn.packetBits; rw [hN]
 
-theorem flush_einv (sent : List Bunch) (e : Env) (c : Conn) (h : EInv sent c) : EInv sent (c.flush e) ∧ Adds (EP sent) c (c.flush e) := by
+theorem flush_einv {mb mg : Nat} (sent : List Bunch) (e : Env) (he : e.magicBits = mb ∧ e.magic = mg) (c : Conn) (h : EInv sent c) : EInv sent (c.flush e) ∧ Adds (EP mb mg sent) c (c.flush e) := by
   unfold Conn.flush
   split
   · exact ⟨h, Adds.refl _ _⟩
   · split
-    · exact flushNow_einv sent e c h
-    · obtain ⟨f1, f2⟩ := flushNow_einv sent e c.startPacket (startPacket_einv sent c h)
-      exact ⟨f1, (startPacket_adds (EP sent) c).trans f2⟩
+    · rename_i hact
+      exact flushNow_einv sent e he c h hact
+    · obtain ⟨f1, f2⟩ := flushNow_einv sent e he c.startPacket (startPacket_einv sent c h) rfl
+      exact ⟨f1, (startPacket_adds (EP mb mg sent) c).trans f2⟩
 
-theorem prepareWrite_einv (sent : List Bunch) (e : Env) (c : Conn) (n : Nat) (h : EInv sent c) :
-    EInv sent (c.prepareWrite e n) ∧ Adds (EP sent) c (c.prepareWrite e n) := by
+theorem prepareWrite_einv {mb mg : Nat} (sent : List Bunch) (e : Env) (he : e.magicBits = mb ∧ e.magic = mg) (c : Conn) (n : Nat) (h : EInv sent c) :
+    EInv sent (c.prepareWrite e n) ∧ Adds (EP mb mg sent) c (c.prepareWrite e n) := by
   unfold Conn.prepareWrite
   dsimp only
   split
-  · obtain ⟨f1, f2⟩ := flush_einv sent e c h
+  · obtain ⟨f1, f2⟩ := flush_einv sent e he c h
     split
     · exact ⟨startPacket_einv sent _ f1, f2.trans (startPacket_adds _ _)⟩
     · exact ⟨f1, f2⟩
@@ -141,40 +202,40 @@ theorem prepareWrite_einv (sent : List Bunch) (e : Env) (c : Conn) (n : Nat) (h 
     · exact ⟨h, Adds.refl _ _⟩
 
 /-- the header placeholder was just written or the buffer is active: the body may be extended -/
-theorem writeInternal_einv (sent : List Bunch) (e : Env) (c : Conn) (bits : Bits) (h : EInv sent c) (hb : GoodBody sent bits) :
-    EInv sent (c.writeInternal e bits).1 ∧ Adds (EP sent) c (c.writeInternal e bits).1 := by
+theorem writeInternal_einv {mb mg : Nat} (sent : List Bunch) (e : Env) (he : e.magicBits = mb ∧ e.magic = mg) (c : Conn) (bits : Bits) (h : EInv sent c) (hb : GoodBody sent bits) :
+    EInv sent (c.writeInternal e bits).1 ∧ Adds (EP mb mg sent) c (c.writeInternal e bits).1 := by
   unfold Conn.writeInternal
   dsimp only
-  have h1 : EInv sent { c with sendBody := c.sendBody ++ bits } := ⟨h.body.append hb, h.recs.of_chans rfl⟩
-  have a1 : Adds (EP sent) c { c with sendBody := c.sendBody ++ bits } := Adds.of_log_eq rfl
+  have h1 : EInv sent { c with sendBody := c.sendBody ++ bits } := ⟨h.body.append hb, h.recs.of_chans rfl, h.hdr.same rfl rfl rfl⟩
+  have a1 : Adds (EP mb mg sent) c { c with sendBody := c.sendBody ++ bits } := Adds.of_log_eq rfl
   split
-  · obtain ⟨f1, f2⟩ := flush_einv sent e _ h1
+  · obtain ⟨f1, f2⟩ := flush_einv sent e he _ h1
     exact ⟨f1, a1.trans f2⟩
   · exact ⟨h1, a1⟩
 
-theorem writeBits_einv (sent : List Bunch) (e : Env) (c : Conn) (bits : Bits) (h : EInv sent c) (hb : GoodBody sent bits) :
-    EInv sent (c.writeBits e bits).1 ∧ Adds (EP sent) c (c.writeBits e bits).1 := by
+theorem writeBits_einv {mb mg : Nat} (sent : List Bunch) (e : Env) (he : e.magicBits = mb ∧ e.magic = mg) (c : Conn) (bits : Bits) (h : EInv sent c) (hb : GoodBody sent bits) :
+    EInv sent (c.writeBits e bits).1 ∧ Adds (EP mb mg sent) c (c.writeBits e bits).1 := by
   unfold Conn.writeBits
-  obtain ⟨p1, p2⟩ := prepareWrite_einv sent e c bits.length h
-  obtain ⟨w1, w2⟩ := writeInternal_einv sent e _ bits p1 hb
+  obtain ⟨p1, p2⟩ := prepareWrite_einv sent e he c bits.length h
+  obtain ⟨w1, w2⟩ := writeInternal_einv sent e he _ bits p1 hb
   exact ⟨w1, p2.trans w2⟩
 
 theorem setChan_einv (sent : List Bunch) (c : Conn) (ch : Nat) (x : Channel) (h : EInv sent c) (hx : ChanOKP (GoodN sent) x) : EInv sent (c.setChan ch x) :=
-  ⟨h.body, setChan_allOKP c ch x h.recs hx⟩
+  ⟨h.body, setChan_allOKP c ch x h.recs hx, h.hdr.same rfl rfl rfl⟩
 
-theorem resendNodes_einv (sent : List Bunch) (e : Env) (ch : Nat) (nodes : List OutNode) : ∀ c : Conn, EInv sent c → (∀ n ∈ nodes, GoodBody sent n.bits) →
-    EInv sent (c.resendNodes e ch nodes) ∧ Adds (EP sent) c (c.resendNodes e ch nodes) := by
+theorem resendNodes_einv {mb mg : Nat} (sent : List Bunch) (e : Env) (he : e.magicBits = mb ∧ e.magic = mg) (ch : Nat) (nodes : List OutNode) : ∀ c : Conn, EInv sent c → (∀ n ∈ nodes, GoodBody sent n.bits) →
+    EInv sent (c.resendNodes e ch nodes) ∧ Adds (EP mb mg sent) c (c.resendNodes e ch nodes) := by
   induction nodes with
   | nil => intro c h _; unfold Conn.resendNodes; exact ⟨h, Adds.refl _ _⟩
   | cons n rest ih =>
     intro c h hn
     unfold Conn.resendNodes
     dsimp only
-    obtain ⟨w1, w2⟩ := writeBits_einv sent e c n.bits h (hn n List.mem_cons_self)
+    obtain ⟨w1, w2⟩ := writeBits_einv sent e he c n.bits h (hn n List.mem_cons_self)
     have hstep : EInv sent (match (c.writeBits e n.bits).1.getChan ch with
         | none => (c.writeBits e n.bits).1
         | some x => (c.writeBits e n.bits).1.setChan ch { x with outRec := x.outRec ++ [{ n with packetId := (c.writeBits e n.bits).2 }] }) ∧
-        Adds (EP sent) (c.writeBits e n.bits).1 (match (c.writeBits e n.bits).1.getChan ch with
+        Adds (EP mb mg sent) (c.writeBits e n.bits).1 (match (c.writeBits e n.bits).1.getChan ch with
         | none => (c.writeBits e n.bits).1
         | some x => (c.writeBits e n.bits).1.setChan ch { x with outRec := x.outRec ++ [{ n with packetId := (c.writeBits e n.bits).2 }] }) := by
       split
@@ -190,8 +251,8 @@ theorem resendNodes_einv (sent : List Bunch) (e : Env) (ch : Nat) (nodes : List 
     obtain ⟨r1, r2⟩ := ih _ hstep.1 (fun m hm => hn m (List.mem_cons_of_mem _ hm))
     exact ⟨r1, (w2.trans hstep.2).trans r2⟩
 
-theorem onNakChans_einv (sent : List Bunch) (e : Env) (pid : Int) (chs : List Nat) : ∀ c : Conn, EInv sent c →
-    EInv sent (c.onNakChans e pid chs) ∧ Adds (EP sent) c (c.onNakChans e pid chs) := by
+theorem onNakChans_einv {mb mg : Nat} (sent : List Bunch) (e : Env) (he : e.magicBits = mb ∧ e.magic = mg) (pid : Int) (chs : List Nat) : ∀ c : Conn, EInv sent c →
+    EInv sent (c.onNakChans e pid chs) ∧ Adds (EP mb mg sent) c (c.onNakChans e pid chs) := by
   induction chs with
   | nil => intro c h; exact ⟨h, Adds.refl _ _⟩
   | cons ch rest ih =>
@@ -205,14 +266,14 @@ theorem onNakChans_einv (sent : List Bunch) (e : Env) (pid : Int) (chs : List Na
       obtain ⟨s1, s2⟩ := removeOutgoing_subset pid x.outRec
       have h1 : EInv sent (c.setChan ch { x with outRec := (removeOutgoing pid x.outRec).2 }) :=
         setChan_einv sent c ch _ h (fun n hn => hxo n (s2 n hn))
-      obtain ⟨r1, r2⟩ := resendNodes_einv sent e ch (removeOutgoing pid x.outRec).1 _ h1 (fun n hn => hxo n (s1 n hn))
+      obtain ⟨r1, r2⟩ := resendNodes_einv sent e he ch (removeOutgoing pid x.outRec).1 _ h1 (fun n hn => hxo n (s1 n hn))
       obtain ⟨i1, i2⟩ := ih _ r1
-      exact ⟨i1, ((setChan_adds (EP sent) c ch _).trans r2).trans i2⟩
+      exact ⟨i1, ((setChan_adds (EP mb mg sent) c ch _).trans r2).trans i2⟩
 
 theorem foldl_emit_einv {α} (sent : List Bunch) (ev : Event) (l : List α) : ∀ c : Conn, EInv sent c → EInv sent (l.foldl (fun c _ => c.emit ev) c) := by
   induction l with
   | nil => intro c h; exact h
-  | cons _ rest ih => intro c h; exact ih _ ⟨h.body, h.recs.of_chans rfl⟩
+  | cons _ rest ih => intro c h; exact ih _ ⟨h.body, h.recs.of_chans rfl, h.hdr.same rfl rfl rfl⟩
 
 theorem onAckChans_einv (sent : List Bunch) (pid : Int) (chs : List Nat) : ∀ c : Conn, EInv sent c → EInv sent (c.onAckChans pid chs) := by
   induction chs with
@@ -230,78 +291,108 @@ theorem onAckChans_einv (sent : List Bunch) (pid : Int) (chs : List Nat) : ∀ c
         setChan_einv sent c ch _ h (fun n hn => hxo n (s2 n hn))
       exact ih _ (foldl_emit_einv sent _ _ _ h1)
 
-theorem isFreeNode_eP (sent : List Bunch) (ev : Event) (h : isFreeNode ev) : EP sent ev := by
+theorem isFreeNode_eP (mb mg : Nat) (sent : List Bunch) (ev : Event) (h : isFreeNode ev) : EP mb mg sent ev := by
   cases ev with
   | out b => simp [isFreeNode] at h
   | _ => intro d hd; cases hd
 
-theorem handleNotification_einv (sent : List Bunch) (e : Env) (c : Conn) (v : Int × Bool) (h : EInv sent c) :
-    EInv sent (c.handleNotification e v) ∧ Adds (EP sent) c (c.handleNotification e v) := by
+theorem handleNotification_einv {mb mg : Nat} (sent : List Bunch) (e : Env) (he : e.magicBits = mb ∧ e.magic = mg) (c : Conn) (v : Int × Bool) (h : EInv sent c) :
+    EInv sent (c.handleNotification e v) ∧ Adds (EP mb mg sent) c (c.handleNotification e v) := by
   unfold Conn.handleNotification
   dsimp only
-  have h0 : EInv sent { c with lastNotified := c.lastNotified + 1 } := ⟨h.body, h.recs.of_chans rfl⟩
-  have a0 : Adds (EP sent) c { c with lastNotified := c.lastNotified + 1 } := Adds.of_log_eq rfl
-  have hs : ∀ p a, EP sent (.status p a) := fun p a d hd => by cases hd
+  have h0 : EInv sent { c with lastNotified := c.lastNotified + 1 } := ⟨h.body, h.recs.of_chans rfl, h.hdr.same rfl rfl rfl⟩
+  have a0 : Adds (EP mb mg sent) c { c with lastNotified := c.lastNotified + 1 } := Adds.of_log_eq rfl
+  have hs : ∀ p a, EP mb mg sent (.status p a) := fun p a d hd => by cases hd
   split
   · exact ⟨h0, a0⟩
   · split
-    · have h1 : EInv sent { c with lastNotified := c.lastNotified + 1, outAckPacketId := c.lastNotified + 1 } := ⟨h.body, h.recs.of_chans rfl⟩
+    · have h1 : EInv sent { c with lastNotified := c.lastNotified + 1, outAckPacketId := c.lastNotified + 1 } := ⟨h.body, h.recs.of_chans rfl, h.hdr.same rfl rfl rfl⟩
       have hk := onAckChans_einv sent (c.lastNotified + 1) (c.chans.map (·.1)) _ h1
-      refine ⟨⟨hk.body, hk.recs.of_chans rfl⟩, ?_⟩
+      refine ⟨⟨hk.body, hk.recs.of_chans rfl, hk.hdr.same rfl rfl rfl⟩, ?_⟩
       refine Adds.emit_trans ?_ _ (hs _ _)
-      exact (Adds.of_log_eq rfl : Adds (EP sent) c _).trans ((onAckChans_adds _ _ _).mono (isFreeNode_eP sent))
-    · obtain ⟨n1, n2⟩ := onNakChans_einv sent e (c.lastNotified + 1) (c.chans.map (·.1)) _ h0
-      exact ⟨⟨n1.body, n1.recs.of_chans rfl⟩, (a0.trans n2).emit_trans _ (hs _ _)⟩
+      exact (Adds.of_log_eq rfl : Adds (EP mb mg sent) c _).trans ((onAckChans_adds _ _ _).mono (isFreeNode_eP mb mg sent))
+    · obtain ⟨n1, n2⟩ := onNakChans_einv sent e he (c.lastNotified + 1) (c.chans.map (·.1)) _ h0
+      exact ⟨⟨n1.body, n1.recs.of_chans rfl, n1.hdr.same rfl rfl rfl⟩, (a0.trans n2).emit_trans _ (hs _ _)⟩
 
-theorem notifyUpdate_einv (sent : List Bunch) (e : Env) (c : Conn) (hd : NotifHeader) (h : EInv sent c) :
-    EInv sent (c.notifyUpdate e hd) ∧ Adds (EP sent) c (c.notifyUpdate e hd) := by
+theorem notifyUpdate_einv {mb mg : Nat} (sent : List Bunch) (e : Env) (he : e.magicBits = mb ∧ e.magic = mg) (c : Conn) (hd : NotifHeader) (h : EInv sent c) :
+    EInv sent (c.notifyUpdate e hd) ∧ Adds (EP mb mg sent) c (c.notifyUpdate e hd) := by
   obtain ⟨h1, h2⟩ := notifyUpdate_core e c hd
   have hb : (c.notifyUpdate e hd).sendBody = (notifyCore e c hd).sendBody := by
     unfold Conn.notifyUpdate notifyCore; dsimp only; split <;> rfl
-  have hcore : EInv sent (notifyCore e c hd) ∧ Adds (EP sent) c (notifyCore e c hd) := by
+  have hcore : EInv sent (notifyCore e c hd) ∧ Adds (EP mb mg sent) c (notifyCore e c hd) := by
     unfold notifyCore
-    have hfold : ∀ (vs : List (Int × Bool)) (c : Conn), EInv sent c → EInv sent (vs.foldl (Conn.handleNotification e) c) ∧ Adds (EP sent) c (vs.foldl (Conn.handleNotification e) c) := by
+    have hfold : ∀ (vs : List (Int × Bool)) (c : Conn), EInv sent c → EInv sent (vs.foldl (Conn.handleNotification e) c) ∧ Adds (EP mb mg sent) c (vs.foldl (Conn.handleNotification e) c) := by
       intro vs
       induction vs with
       | nil => intro c h; exact ⟨h, Adds.refl _ _⟩
       | cons v rest ih =>
         intro c h
-        obtain ⟨a1, a2⟩ := handleNotification_einv sent e c v h
+        obtain ⟨a1, a2⟩ := handleNotification_einv sent e he c v h
         obtain ⟨b1, b2⟩ := ih _ a1
         exact ⟨b1, a2.trans b2⟩
     split
-    · obtain ⟨f1, f2⟩ := hfold _ { c with notify := c.notify.updateInAckSeqAck (seq_num_diff hd.ackedSeq c.notify.outAckSeq).toNat hd.ackedSeq } ⟨h.body, h.recs.of_chans rfl⟩
-      exact ⟨f1, (Adds.of_log_eq rfl : Adds (EP sent) c _).trans f2⟩
+    · have hu : ∀ k a, (c.notify.updateInAckSeqAck k a).hist = c.notify.hist ∧ (c.notify.updateInAckSeqAck k a).writtenWords = c.notify.writtenWords ∧
+          (c.notify.updateInAckSeqAck k a).outSeq = c.notify.outSeq ∧ (c.notify.updateInAckSeqAck k a).inAckSeq = c.notify.inAckSeq := by
+        intro k a
+        unfold Notify.updateInAckSeqAck
+        dsimp only
+        split
+        · split
+          · split <;> exact ⟨rfl, rfl, rfl, rfl⟩
+          · exact ⟨rfl, rfl, rfl, rfl⟩
+        · exact ⟨rfl, rfl, rfl, rfl⟩
+      obtain ⟨u1, u2, u3, u4⟩ := hu (seq_num_diff hd.ackedSeq c.notify.outAckSeq).toNat hd.ackedSeq
+      obtain ⟨f1, f2⟩ := hfold _ { c with notify := c.notify.updateInAckSeqAck (seq_num_diff hd.ackedSeq c.notify.outAckSeq).toNat hd.ackedSeq } ⟨h.body, h.recs.of_chans rfl, h.hdr.notify _ u1 u2 u3 u4⟩
+      exact ⟨f1, (Adds.of_log_eq rfl : Adds (EP mb mg sent) c _).trans f2⟩
     · exact ⟨h, Adds.refl _ _⟩
-  exact ⟨⟨by rw [hb]; exact hcore.1.body, hcore.1.recs.of_chans h1⟩, hcore.2.trans (Adds.of_log_eq h2)⟩
+  have hfields : (c.notifyUpdate e hd).notify.hist = (notifyCore e c hd).notify.hist ∧ (c.notifyUpdate e hd).notify.writtenWords = (notifyCore e c hd).notify.writtenWords ∧
+      (c.notifyUpdate e hd).notify.outSeq = (notifyCore e c hd).notify.outSeq ∧ (c.notifyUpdate e hd).notify.inAckSeq = (notifyCore e c hd).notify.inAckSeq ∧
+      (c.notifyUpdate e hd).sendActive = (notifyCore e c hd).sendActive ∧ (c.notifyUpdate e hd).sendNotif = (notifyCore e c hd).sendNotif := by
+    unfold Conn.notifyUpdate notifyCore; dsimp only; split <;> exact ⟨rfl, rfl, rfl, rfl, rfl, rfl⟩
+  obtain ⟨q1, q2, q3, q4, q5, q6⟩ := hfields
+  have hh : HInv (c.notifyUpdate e hd) := by
+    have hc := hcore.1.hdr
+    refine ⟨by rw [q1]; exact hc.hist, by rw [q3, q4]; exact hc.seqs, fun ha => ?_⟩
+    obtain ⟨h0, w1, w2, w3⟩ := hc.enc (by rw [← q5]; exact ha)
+    exact ⟨h0, w1, by rw [q6]; exact w2, by rw [q2]; exact w3⟩
+  exact ⟨⟨by rw [hb]; exact hcore.1.body, hcore.1.recs.of_chans h1, hh⟩, hcore.2.trans (Adds.of_log_eq h2)⟩
 
-theorem sizeless_pred (sent : List Bunch) : RecvPred (EP sent) :=
+theorem sizeless_pred (mb mg : Nat) (sent : List Bunch) : RecvPred (EP mb mg sent) :=
   ⟨fun k d hd => (by cases hd), fun k d hd => (by cases hd), fun k d hd => (by cases hd), fun g _ _ d hd => (by cases hd)⟩
 
 /-- `ReceivedPacket` on any bit string: retransmissions triggered by NAKs re-send recorded encodings, nothing else is emitted -/
-theorem receivedPacket_einv (sent : List Bunch) (e : Env) (c : Conn) (bits : Bits) (h : EInv sent c) :
-    EInv sent (c.receivedPacket e bits).1 ∧ Adds (EP sent) c (c.receivedPacket e bits).1 := by
+theorem receivedPacket_einv {mb mg : Nat} (sent : List Bunch) (e : Env) (he : e.magicBits = mb ∧ e.magic = mg) (c : Conn) (bits : Bits) (h : EInv sent c) :
+    EInv sent (c.receivedPacket e bits).1 ∧ Adds (EP mb mg sent) c (c.receivedPacket e bits).1 := by
   unfold Conn.receivedPacket
   split
   · rename_i reason _
-    refine ⟨⟨?_, h.recs.of_chans (markClose_chans _ _)⟩, markClose_adds _ _ _⟩
+    refine ⟨⟨?_, h.recs.of_chans (markClose_chans _ _), h.hdr.ofSameN (markClose_sameN _ _)⟩, markClose_adds _ _ _⟩
     have : (c.markClose reason).sendBody = c.sendBody := by unfold Conn.markClose; split <;> rfl
     rw [this]; exact h.body
   · rename_i hd rest hdec
     dsimp only
     split
     · exact ⟨h, Adds.refl _ _⟩
-    · have h0 : EInv sent ({ c with inPacketId := c.inPacketId + c.notify.deltaSeq hd } : Conn) := ⟨h.body, h.recs.of_chans rfl⟩
-      obtain ⟨n1, n2⟩ := notifyUpdate_einv sent e _ hd h0
+    · have h0 : EInv sent ({ c with inPacketId := c.inPacketId + c.notify.deltaSeq hd } : Conn) := ⟨h.body, h.recs.of_chans rfl, h.hdr.same rfl rfl rfl⟩
+      obtain ⟨n1, n2⟩ := notifyUpdate_einv sent e he _ hd h0
       generalize ({ c with inPacketId := c.inPacketId + c.notify.deltaSeq hd } : Conn).notifyUpdate e hd = c2 at n1 n2 ⊢
       have hs := bunchLoop_sameN (rest.length + 1) c2 rest false
       have ha := bunchLoop_allOKP (N := GoodN sent) (rest.length + 1) c2 rest false n1.recs
-      have hl := bunchLoop_adds (sizeless_pred sent) (rest.length + 1) c2 rest false
+      have hl := bunchLoop_adds (sizeless_pred mb mg sent) (rest.length + 1) c2 rest false
       generalize Conn.bunchLoop (rest.length + 1) c2 rest false = r at hs ha hl ⊢
       obtain ⟨c3, rest', skip⟩ := r
       simp only at hs ha hl ⊢
-      refine ⟨⟨by show GoodBody sent c3.sendBody; rw [hs.sendBody]; exact n1.body, ha.of_chans rfl⟩, ?_⟩
-      exact (((Adds.of_log_eq rfl : Adds (EP sent) c _).trans n2).trans hl).trans (Adds.of_log_eq rfl)
+      have h3 : HInv c3 := n1.hdr.ofSameN hs
+      obtain ⟨k1, k2⟩ := ackSeqLoop_fields 16384 c3.notify (seq_num_init (c3.inPacketId % 65536)) (!skip) h3.hist
+      obtain ⟨q1, q2⟩ := ackSeqLoop_seqs 16384 c3.notify (seq_num_init (c3.inPacketId % 65536)) (!skip) h3.seqs.2
+      have h4 : HInv ({ c3 with notify := c3.notify.ackSeq c3.inPacketId (!skip) } : Conn) := by
+        refine ⟨by show (c3.notify.ackSeq _ _).hist.length = 256; unfold Notify.ackSeq; exact k1,
+          ⟨by show 0 ≤ (c3.notify.ackSeq _ _).outSeq ∧ (c3.notify.ackSeq _ _).outSeq < 16384; unfold Notify.ackSeq; rw [q1]; exact h3.seqs.1,
+           by show 0 ≤ (c3.notify.ackSeq _ _).inAckSeq ∧ (c3.notify.ackSeq _ _).inAckSeq < 16384; unfold Notify.ackSeq; exact q2⟩, fun hx => ?_⟩
+        obtain ⟨h0', w1, w2, w3⟩ := h3.enc hx
+        exact ⟨h0', w1, w2, by show h0'.words = (c3.notify.ackSeq _ _).writtenWords; unfold Notify.ackSeq; rw [k2]; exact w3⟩
+      refine ⟨⟨by show GoodBody sent c3.sendBody; rw [hs.sendBody]; exact n1.body, ha.of_chans rfl, h4⟩, ?_⟩
+      exact (((Adds.of_log_eq rfl : Adds (EP mb mg sent) c _).trans n2).trans hl).trans (Adds.of_log_eq rfl)
 
 /-! ### the send API -/
 
@@ -336,8 +427,8 @@ theorem sent_bits_good (sent : List Bunch) (b : Bunch) (s : Int) (hdr : Bits) (h
     rw [seen_wireView_nrm]
     rfl
 
-theorem sendCommit_einv (sent : List Bunch) (e : Env) (c : Conn) (b : Bunch) (h0 : Bits) (h : EInv sent c) (hchk : c.sendCheck b = .inr h0) :
-    EInv (b :: sent) (c.sendCommit e b h0).1 ∧ Adds (EP (b :: sent)) c (c.sendCommit e b h0).1 := by
+theorem sendCommit_einv {mb mg : Nat} (sent : List Bunch) (e : Env) (he : e.magicBits = mb ∧ e.magic = mg) (c : Conn) (b : Bunch) (h0 : Bits) (h : EInv sent c) (hchk : c.sendCheck b = .inr h0) :
+    EInv (b :: sent) (c.sendCommit e b h0).1 ∧ Adds (EP mb mg (b :: sent)) c (c.sendCommit e b h0).1 := by
   obtain ⟨hfit, hchi, henc⟩ := Props.C14.accepted_fits c b h0 hchk
   have hmono : ∀ x ∈ sent, x ∈ b :: sent := fun x hx => List.mem_cons_of_mem _ hx
   have h' : EInv (b :: sent) c := h.mono hmono
@@ -346,8 +437,8 @@ theorem sendCommit_einv (sent : List Bunch) (e : Env) (c : Conn) (b : Bunch) (h0
   have hs1 := (getOrCreateChan_sameN c b false)
   have hs2 := noteClose_sameN (c.getOrCreateChan b false).1 b
   have h1 : EInv (b :: sent) ((c.getOrCreateChan b false).1.noteClose b) :=
-    ⟨by rw [hs2.sendBody, hs1.sendBody]; exact h'.body, noteClose_allOKP _ b (getOrCreateChan_allOKP c b false h'.recs).1⟩
-  have a1 : Adds (EP (b :: sent)) c ((c.getOrCreateChan b false).1.noteClose b) :=
+    ⟨by rw [hs2.sendBody, hs1.sendBody]; exact h'.body, noteClose_allOKP _ b (getOrCreateChan_allOKP c b false h'.recs).1, (h'.hdr.ofSameN hs1).ofSameN hs2⟩
+  have a1 : Adds (EP mb mg (b :: sent)) c ((c.getOrCreateChan b false).1.noteClose b) :=
     (getOrCreateChan_adds' (fun k d hd => (by cases hd)) (fun k d hd => (by cases hd)) c b false).trans (noteClose_adds _ _ b)
   generalize (c.getOrCreateChan b false).1.noteClose b = c1 at h1 a1 ⊢
   split
@@ -367,18 +458,18 @@ theorem sendCommit_einv (sent : List Bunch) (e : Env) (c : Conn) (b : Bunch) (h0
       split
       · exact setChan_einv _ c1 _ _ h1 hxo
       · exact h1
-    have a2 : Adds (EP (b :: sent)) c1 (if b.bReliable = true then c1.setChan b.chIndex { x with outReliable := seq } else c1) := by
+    have a2 : Adds (EP mb mg (b :: sent)) c1 (if b.bReliable = true then c1.setChan b.chIndex { x with outReliable := seq } else c1) := by
       split
       · exact setChan_adds _ _ _ _
       · exact Adds.refl _ _
     generalize (if b.bReliable = true then c1.setChan b.chIndex { x with outReliable := seq } else c1) = c2 at h2 a2 ⊢
-    obtain ⟨p1, p2⟩ := prepareWrite_einv (b :: sent) e c2 (hdr.length + b.data.length) h2
-    obtain ⟨w1, w2⟩ := writeInternal_einv (b :: sent) e _ (hdr ++ b.data) p1 hgood
+    obtain ⟨p1, p2⟩ := prepareWrite_einv (b :: sent) e he c2 (hdr.length + b.data.length) h2
+    obtain ⟨w1, w2⟩ := writeInternal_einv (b :: sent) e he _ (hdr ++ b.data) p1 hgood
     have atot := ((a1.trans a2).trans p2).trans w2
     split
     · refine ⟨?_, (atot.emit_trans (.alloc .node) (fun d hd => by cases hd)).trans (addOutRec_adds _ _ _ _ _)⟩
       have w1' : EInv (b :: sent) (((c2.prepareWrite e (hdr.length + b.data.length)).writeInternal e (hdr ++ b.data)).1.emit (.alloc .node)) :=
-        ⟨w1.body, w1.recs.of_chans rfl⟩
+        ⟨w1.body, w1.recs.of_chans rfl, w1.hdr.same rfl rfl rfl⟩
       unfold Conn.addOutRec
       split
       · exact w1'
@@ -392,15 +483,15 @@ theorem sendCommit_einv (sent : List Bunch) (e : Env) (c : Conn) (b : Bunch) (h0
     · exact ⟨w1, atot⟩
 
 /-- **`utcp_send_bunch`**: an accepted bunch joins the set of bunches sent; a refused one changes nothing -/
-theorem sendBunch_einv (sent : List Bunch) (e : Env) (c : Conn) (b : Bunch) (h : EInv sent c) :
-    EInv (b :: sent) (c.sendBunch e b).1 ∧ Adds (EP (b :: sent)) c (c.sendBunch e b).1 := by
+theorem sendBunch_einv {mb mg : Nat} (sent : List Bunch) (e : Env) (he : e.magicBits = mb ∧ e.magic = mg) (c : Conn) (b : Bunch) (h : EInv sent c) :
+    EInv (b :: sent) (c.sendBunch e b).1 ∧ Adds (EP mb mg (b :: sent)) c (c.sendBunch e b).1 := by
   have hmono : ∀ x ∈ sent, x ∈ b :: sent := fun x hx => List.mem_cons_of_mem _ hx
-  have hraw : EInv (b :: sent) (c.sendRaw e b).1 ∧ Adds (EP (b :: sent)) c (c.sendRaw e b).1 := by
+  have hraw : EInv (b :: sent) (c.sendRaw e b).1 ∧ Adds (EP mb mg (b :: sent)) c (c.sendRaw e b).1 := by
     unfold Conn.sendRaw
     split
     · exact ⟨h.mono hmono, Adds.refl _ _⟩
     · rename_i h0 hchk
-      exact sendCommit_einv sent e c b h0 h hchk
+      exact sendCommit_einv sent e he c b h0 h hchk
   unfold Conn.sendBunch
   generalize c.sendRaw e b = r at hraw ⊢
   obtain ⟨c', rr⟩ := r
@@ -408,42 +499,46 @@ theorem sendBunch_einv (sent : List Bunch) (e : Env) (c : Conn) (b : Bunch) (h :
   split <;> exact hraw
 
 /-- periodic work emits nothing and only drops records -/
-theorem update_einv (sent : List Bunch) (e : Env) (c : Conn) (h : EInv sent c) :
-    EInv sent (c.checkTimeout e).updateTail.1 ∧ Adds (EP sent) c (c.checkTimeout e).updateTail.1 := by
-  have hne : ∀ ev, SizeOK ev → (∀ d, ev = .out d → False) → EP sent ev := fun ev _ hno d hd => (hno d hd).elim
+theorem update_einv {mb mg : Nat} (sent : List Bunch) (e : Env) (he : e.magicBits = mb ∧ e.magic = mg) (c : Conn) (h : EInv sent c) :
+    EInv sent (c.checkTimeout e).updateTail.1 ∧ Adds (EP mb mg sent) c (c.checkTimeout e).updateTail.1 := by
+  have hne : ∀ ev, SizeOK ev → (∀ d, ev = .out d → False) → EP mb mg sent ev := fun ev _ hno d hd => (hno d hd).elim
   -- every step of `update` keeps the send buffer and only removes channels
-  have h1 : EInv sent (c.checkTimeout e) ∧ Adds (EP sent) c (c.checkTimeout e) := by
+  have h1 : EInv sent (c.checkTimeout e) ∧ Adds (EP mb mg sent) c (c.checkTimeout e) := by
     unfold Conn.checkTimeout
     split
     · have hs := markClose_sameN c crConnectionTimeout
-      exact ⟨⟨by rw [hs.sendBody]; exact h.body, h.recs.of_chans (markClose_chans _ _)⟩, markClose_adds _ _ _⟩
+      exact ⟨⟨by rw [hs.sendBody]; exact h.body, h.recs.of_chans (markClose_chans _ _), h.hdr.ofSameN hs⟩, markClose_adds _ _ _⟩
     · exact ⟨h, Adds.refl _ _⟩
-  have hd : ∀ c : Conn, EInv sent c → EInv sent c.delayClose ∧ Adds (EP sent) c c.delayClose := by
+  have hd : ∀ c : Conn, EInv sent c → EInv sent c.delayClose ∧ Adds (EP mb mg sent) c c.delayClose := by
     intro c h
     unfold Conn.delayClose
     split
     · exact ⟨h, Adds.refl _ _⟩
     · dsimp only
-      have hfree : ∀ (c : Conn) (x : Channel), EInv sent c → EInv sent (c.freeChan x) ∧ Adds (EP sent) c (c.freeChan x) ∧ (c.freeChan x).chans = c.chans := by
+      have hfree : ∀ (c : Conn) (x : Channel), EInv sent c → EInv sent (c.freeChan x) ∧ Adds (EP mb mg sent) c (c.freeChan x) ∧ (c.freeChan x).chans = c.chans := by
         intro c x h
         obtain ⟨e1, e2, e3, e4, e5⟩ := freeChan_effect c x
-        have hlogs : Adds (EP sent) c (c.freeChan x) := by
+        have hlogs : Adds (EP mb mg sent) c (c.freeChan x) := by
           unfold Conn.freeChan
           dsimp only
           refine Adds.emit_trans ?_ _ (fun d hd => by cases hd)
-          exact (((freeNodes_adds c _).mono (isFreeNode_eP sent)).trans ((freeNodes_adds _ _).mono (isFreeNode_eP sent))).trans ((freeNodes_adds _ _).mono (isFreeNode_eP sent))
+          exact (((freeNodes_adds c _).mono (isFreeNode_eP mb mg sent)).trans ((freeNodes_adds _ _).mono (isFreeNode_eP mb mg sent))).trans ((freeNodes_adds _ _).mono (isFreeNode_eP mb mg sent))
         have hbody : (c.freeChan x).sendBody = c.sendBody := by
           unfold Conn.freeChan
           dsimp only
           show (((c.freeNodes _).freeNodes _).freeNodes _).sendBody = _
           rw [(freeNodes_sameN _ _).sendBody, (freeNodes_sameN _ _).sendBody, (freeNodes_sameN _ _).sendBody]
-        exact ⟨⟨by rw [hbody]; exact h.body, h.recs.of_chans e4⟩, hlogs, e4⟩
+        have hhdr : HInv (c.freeChan x) := by
+          unfold Conn.freeChan
+          dsimp only
+          exact ((((h.hdr.ofSameN (freeNodes_sameN _ _)).ofSameN (freeNodes_sameN _ _)).ofSameN (freeNodes_sameN _ _))).same rfl rfl rfl
+        exact ⟨⟨by rw [hbody]; exact h.body, h.recs.of_chans e4, hhdr⟩, hlogs, e4⟩
       have hfold : ∀ (l : List (Nat × Channel)) (c' : Conn), EInv sent c' →
           EInv sent (l.foldl (fun c (p : Nat × Channel) =>
             if !p.2.bClose then c
             else if !p.2.outRec.isEmpty then { c with hasChannelClose := true }
             else { c.freeChan p.2 with chans := c.chans.filter (·.1 != p.1) }) c') ∧
-          Adds (EP sent) c' (l.foldl (fun c (p : Nat × Channel) =>
+          Adds (EP mb mg sent) c' (l.foldl (fun c (p : Nat × Channel) =>
             if !p.2.bClose then c
             else if !p.2.outRec.isEmpty then { c with hasChannelClose := true }
             else { c.freeChan p.2 with chans := c.chans.filter (·.1 != p.1) }) c') := by
@@ -456,23 +551,30 @@ theorem update_einv (sent : List Bunch) (e : Env) (c : Conn) (h : EInv sent c) :
           split
           · exact ih _ h'
           · split
-            · obtain ⟨i1, i2⟩ := ih { c' with hasChannelClose := true } ⟨h'.body, h'.recs.of_chans rfl⟩
-              exact ⟨i1, (Adds.of_log_eq rfl : Adds (EP sent) c' _).trans i2⟩
+            · obtain ⟨i1, i2⟩ := ih { c' with hasChannelClose := true } ⟨h'.body, h'.recs.of_chans rfl, h'.hdr.same rfl rfl rfl⟩
+              exact ⟨i1, (Adds.of_log_eq rfl : Adds (EP mb mg sent) c' _).trans i2⟩
             · obtain ⟨f1, f2, f3⟩ := hfree c' p.2 h'
               have hs : EInv sent ({ c'.freeChan p.2 with chans := c'.chans.filter (·.1 != p.1) } : Conn) :=
-                ⟨f1.body, fun q hq => h'.recs q (List.mem_filter.mp hq).1⟩
+                ⟨f1.body, fun q hq => h'.recs q (List.mem_filter.mp hq).1, f1.hdr.same rfl rfl rfl⟩
               obtain ⟨i1, i2⟩ := ih _ hs
               exact ⟨i1, (f2.trans (Adds.of_log_eq rfl)).trans i2⟩
-      obtain ⟨r1, r2⟩ := hfold c.chans.reverse { c with hasChannelClose := false } ⟨h.body, h.recs.of_chans rfl⟩
-      exact ⟨r1, (Adds.of_log_eq rfl : Adds (EP sent) c _).trans r2⟩
+      obtain ⟨r1, r2⟩ := hfold c.chans.reverse { c with hasChannelClose := false } ⟨h.body, h.recs.of_chans rfl, h.hdr.same rfl rfl rfl⟩
+      exact ⟨r1, (Adds.of_log_eq rfl : Adds (EP mb mg sent) c _).trans r2⟩
   obtain ⟨d1, d2⟩ := hd _ h1.1
   unfold Conn.updateTail
   dsimp only
   split
   · exact ⟨d1, h1.2.trans d2⟩
-  · exact ⟨⟨d1.body, d1.recs.of_chans rfl⟩, (h1.2.trans d2).emit_trans _ (fun d hd => by cases hd)⟩
+  · exact ⟨⟨d1.body, d1.recs.of_chans rfl, d1.hdr.same rfl rfl rfl⟩, (h1.2.trans d2).emit_trans _ (fun d hd => by cases hd)⟩
 
-theorem fresh_einv (c : Conn) (hb : c.sendBody = []) (hc : c.chans = []) : EInv [] c :=
-  ⟨by rw [hb]; exact GoodBody.nil _, by intro p hp; rw [hc] at hp; simp at hp⟩
+theorem fresh_einv (c : Conn) (hb : c.sendBody = []) (hc : c.chans = []) (hh : HInv c) : EInv [] c :=
+  ⟨by rw [hb]; exact GoodBody.nil _, by intro p hp; rw [hc] at hp; simp at hp, hh⟩
+
+theorem seqInit_hinv (c : Conn) (i o : Int) (ha : c.sendActive = false) : HInv (c.seqInit i o) := by
+  refine ⟨?_, ?_, fun hx => absurd (show c.sendActive = true from hx) (by simp [ha])⟩
+  · show (List.replicate histLen false).length = 256
+    rw [List.length_replicate]; decide
+  · show (0 ≤ seq_num_init (o % 65536) ∧ seq_num_init (o % 65536) < 16384) ∧ (0 ≤ seq_num_init ((i - 1) % 65536) ∧ seq_num_init ((i - 1) % 65536) < 16384)
+    simp only [seq_num_init]; omega
 
 end Utcp
